@@ -8,4 +8,5 @@ CONSTANTS
   FixD12 = TRUE
   FixD17 = TRUE
   FixD18 = TRUE
+  FixD20 = TRUE
 PROPERTY C06_StopTerminates
